@@ -1,6 +1,10 @@
 package props
 
 import (
+	"go/token"
+	"path/filepath"
+	"os"
+	"fmt"
 	"regexp"
 	"go/ast"
 	"go/types"
@@ -25,6 +29,7 @@ func init() {
 }
 
 func runC15(c *engine.Ctx, tier string) {
+	loopVarAddress(c)
 	conditionalUpdates(c)
 	recordFieldOwnership(c)
 	for _, rel := range storePkgs {
@@ -712,6 +717,90 @@ func eventMapping(c *engine.Ctx, id, rel string) {
 				o.Fail(&engine.Violation{Key: p.Root.Name()[:strings.Index(p.Root.Name()+"$", "$")] + "|" + kind + " mapped to " + e.RHS, Pos: pos, Func: p.Root.Name(),
 					Msg: "a primitive " + kind + " event is published as " + e.RHS + ", not " + want[kind]})
 			}
+		}
+	}
+}
+
+// loopVarAddress: C15.10 — under the module's Go version (go.mod < 1.22: one variable per loop) the
+// address of a range/for variable must not outlive its iteration.
+func loopVarAddress(c *engine.Ctx) {
+	o := c.Custom("C15.10", "alias(loop variable)", "with go.mod declaring a Go version below 1.22, &v of a range/for variable v is not taken inside the loop other than in a return statement (a per-iteration copy `v := v` makes it a different variable)",
+		"a primitive transaction that keeps the pointer until Commit, a slice of pointers, a goroutine: all see the last iteration's value")
+	defer o.Done(0)
+	gomod, err := os.ReadFile(filepath.Join(c.P.RepoDir, "go.mod"))
+	if err != nil {
+		o.Undecided("go.mod", err.Error())
+		return
+	}
+	m := regexp.MustCompile(`(?m)^go (\d+)\.(\d+)`).FindSubmatch(gomod)
+	if m == nil {
+		o.Undecided("go.mod", "no go directive")
+		return
+	}
+	var major, minor int
+	fmt.Sscan(string(m[1]), &major)
+	fmt.Sscan(string(m[2]), &minor)
+	goVer := string(m[1]) + "." + string(m[2])
+	o.Site("go.mod: go " + goVer)
+	if major > 1 || minor >= 22 {
+		return // per-iteration loop variables
+	}
+	for _, pkg := range c.P.Pkgs {
+		rel := strings.TrimPrefix(pkg.PkgPath, engine.ModulePath+"/")
+		if !strings.HasPrefix(rel, "pkg/") {
+			continue
+		}
+		info := pkg.TypesInfo
+		for _, fi := range c.P.FuncsOf(pkg) {
+			ast.Inspect(fi.Decl.Body, func(n ast.Node) bool {
+				var body *ast.BlockStmt
+				vars := map[types.Object]bool{}
+				switch x := n.(type) {
+				case *ast.RangeStmt:
+					if x.Tok != token.DEFINE {
+						return true
+					}
+					body = x.Body
+					for _, e := range []ast.Expr{x.Key, x.Value} {
+						if id, ok := e.(*ast.Ident); ok && id.Name != "_" {
+							vars[info.Defs[id]] = true
+						}
+					}
+				case *ast.ForStmt:
+					body = x.Body
+					if as, ok := x.Init.(*ast.AssignStmt); ok && as.Tok == token.DEFINE {
+						for _, l := range as.Lhs {
+							if id, ok := l.(*ast.Ident); ok {
+								vars[info.Defs[id]] = true
+							}
+						}
+					}
+				default:
+					return true
+				}
+				if len(vars) == 0 || body == nil {
+					return true
+				}
+				// &v where v is one of the loop's variables (not shadowed by v := v, which defines a new object)
+				ast.Inspect(body, func(m ast.Node) bool {
+					if _, isRet := m.(*ast.ReturnStmt); isRet {
+						return false // returning &v leaves the loop: no later iteration overwrites it
+					}
+					u, ok := m.(*ast.UnaryExpr)
+					if !ok || u.Op != token.AND {
+						return true
+					}
+					id, ok := ast.Unparen(u.X).(*ast.Ident)
+					if !ok || !vars[info.Uses[id]] {
+						return true
+					}
+					o.Eval(1)
+					o.Fail(&engine.Violation{Key: fi.Name() + "|&" + id.Name + " of a loop variable escapes its iteration", Pos: c.P.Pos(u.Pos()), Func: fi.Name(),
+						Msg: "&" + id.Name + " is the address of a loop variable; the module is built with go " + goVer + " loop semantics (one variable for the whole loop), so whatever keeps this pointer sees the last iteration's value"})
+					return true
+				})
+				return true
+			})
 		}
 	}
 }
